@@ -30,6 +30,8 @@ def b_len(E, st, args, kw):
         h = R.specs.get("U.len")
         if h:
             return h(E, st, args, kw)
+    if hasattr(v, "len_term"):
+        return _one(st, VInt(v.len_term()))
     raise Unsupported("len of %r" % (v,))
 
 
@@ -271,6 +273,8 @@ def b_list(E, st, args, kw):
         m = R.models.get(v.cls)
         if m is not None and hasattr(m, "to_list"):
             return m.to_list(E, st, v)
+    if hasattr(v, "to_list_value"):
+        return _one(st, v.to_list_value(E, st))
     raise Unsupported("list(%r)" % (v,))
 
 
